@@ -94,7 +94,9 @@ class _Lock(object):
 
 def lake_build(targets, timeout=3000):
     """lake build <targets>; returns (ok, output).  Serialised across processes."""
+    from . import extract
     with _Lock():
+        extract.gen_limits()                 # constants every model imports: always those of the current /repo
         t0 = time.time()
         try:
             p = subprocess.run(['lake', 'build'] + list(targets), cwd=LEAN, stdout=subprocess.PIPE,
